@@ -65,7 +65,7 @@ def gen_task(job):
             out.update(paths=1, returns=0, raises={}, functions=[], covers=[], gen_s=round(time.time() - t0, 3), externals=[])
             return out
         contract = task.contract or P.contracts[P.index.lookup(task.target).fq]
-        extra = {}
+        extra = dict(task.opts.pop("extra_contracts", None) or {})
         if task.contract is not None:
             extra[P.index.lookup(task.target).fq] = task.contract
         holder = {}
